@@ -219,6 +219,10 @@ def run(ctx):
         return 'SolarTerm::from_name accepts an unknown name'
     ctx.guard('SIB-CYCLE', 'SolarTerm::from_name:unknown', term_bad_name, 1)
 
+    # long jumps of lunar months over the stored table (shared with C03)
+    from rules import c03 as _c03
+    _c03.long_jump_rule(ctx)
+
     # ---- lunar month / day / hour stepping on a scenario calendar with leap months
     Y = 2000
     months = synthetic_months(Y, CAL.jdn(Y, 2, 5), 4, leap={Y: 4, Y + 2: 11}, prev_months=3, auto_leap=False)
@@ -267,6 +271,31 @@ def run(ctx):
         return (cm.n_of(t.m(x1, 'get_solar_day')) - n0, I.values_equal(x1, x2), I.values_equal(t.m(ld, 'next', 0), ld))
     table(ctx, 'PETE-SCENARIO', 'LunarDay::next', [(k, d, a, b) for k in (2, 4, 5) for d in (1, 15, 29) for a in (-40, -1, 1, 31) for b in (-5, 0, 17)], ld_step,
           lambda x: (x[2] + x[3], True, True), 'lunar day stepping moves exactly n civil days; next(a).next(b) = next(a+b)', str, fn_site(p, 'LunarDay::next'))
+
+    # ---- sexagenary hour (instant-level value): stepping by n seconds equals constructing the value of the instant n seconds later,
+    # in particular across the start of a Jie inside one double-hour (year / month pillars change there)
+    sec_h = dict((i, (i * 3607 + 1234) % 86000 + 100 + (0.4 if i % 4 in (0, 3) else 0.6)) for i in range(24))
+    terms_h = typical_terms(range(Y - 1, Y + 3), sec=sec_h)
+
+    def sch_step(x):
+        n, s0, dn = x
+        cmh = CalModel(I, terms_h, months)
+        a = t.m(I.call('SixtyCycleHour::from_solar_time', [cmh.solar_time_n(n, s0)]), 'next', dn)
+        n2, s2 = divmod(n * 86400 + s0 + dn, 86400)
+        b = I.call('SixtyCycleHour::from_solar_time', [cmh.solar_time_n(n2, s2)])
+        f = lambda v: (t.name(t.m(v, 'get_year')), t.name(t.m(v, 'get_month')), t.name(t.m(v, 'get_day')), t.name(t.m(v, 'get_sixty_cycle')))
+        back = t.m(a, 'next', -dn)
+        return (f(a) == f(b), f(back) == f(I.call('SixtyCycleHour::from_solar_time', [cmh.solar_time_n(n, s0)])))
+    hdom = []
+    for (ty_, ti_), (tn_, ts_) in sorted(terms_h.items()):
+        if ti_ % 2 == 1 and CAL.from_jdn(tn_)[0] == Y and any(r['first'] <= tn_ - 1 and tn_ + 1 < r['first'] + r['count'] for r in months):
+            rs_ = int(ts_ + 0.5)
+            for (s0, dn) in ((rs_ - 300, 600), (rs_ - 1, 1), (rs_ - 1, 2), (rs_ + 300, -600), (rs_, -1), (rs_ - 300, 7200), (rs_ - 4000, 86400)):
+                if 0 <= s0 < 86400:
+                    hdom.append((tn_, s0, dn))
+    table(ctx, 'PETE-SCENARIO', 'SixtyCycleHour::next', hdom, sch_step, lambda x: (True, True),
+          'a sexagenary hour stepped by n seconds is the value of the instant n seconds later (also when the step crosses the start of a Jie inside one double-hour); stepping back returns',
+          lambda a: '%s +%ds then next(%d)' % ('%d-%02d-%02d' % CAL.from_jdn(a[0]), a[1], a[2]), fn_site(p, 'SixtyCycleHour::next'))
 
     # ---- weeks: stepping by n moves the first day by exactly 7n days, forwards and backwards, also into and out of leap months
     def wday(n):
